@@ -22,7 +22,8 @@ RULE = ("random deployments of 2-6 agents with 0-2 active computations each (mos
         "computation graphs (8% asymmetric), integer footprints/capacities (tight to loose), hosting costs and "
         "route costs (90% symmetric as the YAML loader enforces, 10% asymmetric for the assertion branches; 3% of "
         "the symmetric ones with a negative default route = known finding C25-negative-route-assert), plus a 7% "
-        "ORACLE-ONLY stream (not modelled) of 3-5 agent chains with decimal / non-dyadic float route and hosting "
+        "stream with capacity 0 / capacity below the agent's own footprint on 1..all agents (outside wf: model "
+        "validation + oracle), plus a 7% ORACLE-ONLY stream (not modelled) of 3-5 agent chains with decimal / non-dyadic float route and hosting "
         "costs (0.1-multiples, thirds) run to quiescence, "
         "replication level k in 1..3; real ResilientAgent + UCSReplication + Discovery objects of all agents in "
         "one process, driven thread-free by per-channel-FIFO schedules from 5 policies (at most one message is "
@@ -191,6 +192,12 @@ def gen(rng, n, tier):
             own = sum(c[1] for c in a["comps"])
             slack = {"tight": rng.randint(0, 12), "mid": rng.randint(0, 30), "loose": rng.randint(20, 80)}[tight]
             a["cap"] = own + slack
+        if rng.random() < 0.07:
+            # outside the wf hypothesis of the theorems (own computations fit the capacity): capacity 0, or a
+            # capacity below the agent's own footprint (negative remaining capacity); model-validation + oracle
+            for i in rng.sample(range(na), rng.choice([1, 1, 2, na])):
+                own = sum(c[1] for c in agents[i]["comps"])
+                agents[i]["cap"] = 0 if (own == 0 or rng.random() < 0.6) else own - rng.randint(1, own)
         full = rng.random() < 0.75
         cases.append(dict(agents=agents, k=rng.randint(1, 3), sym=sym, graph_sym=graph_sym,
                           seed=rng.randrange(10 ** 9), full=full,
